@@ -996,7 +996,8 @@ Qed.
 
 Theorem direct_convert_fresh : forall n0 gc nc g, fresh n0 (cgraph_ids (direct_convert n0 gc nc g)).
 Proof.
-  intros n0 gc nc g. unfold cgraph_ids, direct_convert. cbn [gid gnodes]. constructor; [lia|].
+  intros n0 gc nc g. unfold cgraph_ids, direct_convert. cbn [gid gnodes gpost]. constructor; [lia|].
+  apply fresh_app; [destruct (gpost g); cbn; repeat constructor; lia|].
   unfold opt_ids. apply fresh_flat_map. intros nd Hin. apply in_map_iff in Hin as [x [<- _]].
   apply copy_node_fresh.
 Qed.
